@@ -116,8 +116,8 @@ theorem loadDoc_le (w : World) (rs : Loc → Nat → St → Res) (hrs : ∀ l k 
     · exact fun x hx => foldRes_le (rs l) (hrs l) _ _ _ h hx
 
 /-- `unvisit` removes exactly the text it was called with -/
-theorem unvisit_keeps (w : World) (k : Kind) (t : Text) (v : Option Obj) (s s' : St)
-    (h : unvisit w k t v s = .ok s') : ∀ x, x ∈ s.inprog → x ≠ t → x ∈ s'.inprog := by
+theorem unvisit_keeps (w : World) (k : Kind) (t : Text) (tg : Option (Loc × Obj)) (v : Option Obj) (s s' : St)
+    (h : unvisit w k t tg v s = .ok s') : ∀ x, x ∈ s.inprog → x ≠ t → x ∈ s'.inprog := by
   intro x hx hne
   unfold unvisit at h
   cases v with
@@ -125,11 +125,11 @@ theorem unvisit_keeps (w : World) (k : Kind) (t : Text) (v : Option Obj) (s s' :
   | some v => simp only [Res.ok.injEq] at h; subst h; exact (List.mem_erase_of_ne hne).2 hx
 
 theorem finish_keeps (w : World) (rs : Nat → St → Res) (hrs : ∀ k s s', rs k s = .ok s' → Le s s')
-    (k : Kind) (t : Text) (o : Obj) (rw : Bool) (v : Option Obj) (s s' : St)
-    (h : finish w rs k t o rw v s = .ok s') : ∀ x, x ∈ s.inprog → x ≠ t → x ∈ s'.inprog := by
+    (k : Kind) (t : Text) (tg : Option (Loc × Obj)) (o : Obj) (rw : Bool) (v : Option Obj) (s s' : St)
+    (h : finish w rs k t tg o rw v s = .ok s') : ∀ x, x ∈ s.inprog → x ≠ t → x ∈ s'.inprog := by
   unfold finish at h
   cases v with
-  | none => exact unvisit_keeps w k t none s s' h
+  | none => exact unvisit_keeps w k t tg none s s' h
   | some v =>
     simp only at h
     cases hf : foldRes rs (if rw = true then ((w.node v).map (·.kids)).getD [] else [])
@@ -139,7 +139,7 @@ theorem finish_keeps (w : World) (rs : Nat → St → Res) (hrs : ∀ k s s', rs
     | ok s2 =>
       simp only [hf] at h
       intro x hx hne
-      exact unvisit_keeps w k t (some v) s2 s' h x (foldRes_le rs hrs _ _ _ hf hx) hne
+      exact unvisit_keeps w k t tg (some v) s2 s' h x (foldRes_le rs hrs _ _ _ hf hx) hne
 
 theorem resolve_le (w : World) : ∀ fuel cx o s s', resolve w fuel cx o s = .ok s' → Le s s' := by
   intro fuel
@@ -205,7 +205,7 @@ theorem resolve_le (w : World) : ∀ fuel cx o s s', resolve w fuel cx o s = .ok
                       intro x hx
                       have hx3 : x ∈ s3.inprog := ih cx' tgt s2 s3 hres (hs2 x hx)
                       have hne : x ≠ t := fun hc => htn (hc ▸ hx)
-                      exact finish_keeps w _ (fun k => ih _ k) n.kind t o _ _ s3 s4 hfin x hx3 hne
+                      exact finish_keeps w _ (fun k => ih _ k) n.kind t _ o _ _ s3 s4 hfin x hx3 hne
                   · simp [hk] at h
 
 /-! ### the fuel bound -/
@@ -231,7 +231,7 @@ theorem markDone_noOOF (o : Obj) (r : Res) (h : r ≠ .outOfFuel) : markDone o r
   | err _ => simp [markDone]
   | outOfFuel => exact absurd rfl h
 
-theorem unvisit_noOOF (w : World) (k : Kind) (t : Text) (v : Option Obj) (s : St) : unvisit w k t v s ≠ .outOfFuel := by
+theorem unvisit_noOOF (w : World) (k : Kind) (t : Text) (tg : Option (Loc × Obj)) (v : Option Obj) (s : St) : unvisit w k t tg v s ≠ .outOfFuel := by
   unfold unvisit; cases v <;> simp
 
 /-- the fuel a call needs: one level per rank step, `R + 1` levels per text that can still be visited -/
@@ -339,14 +339,14 @@ theorem resolve_noOOF (w : World) (rank : Obj → Nat) (R : Nat) (T : List Text)
                       have hL3 : (s.inprog ++ [t]) ⊆ s3.inprog := fun x hx => resolve_le w fuel cx' tgt s2 s3 hres (hL hx)
                       unfold finish
                       cases hv : valueOf w tgt s3 with
-                      | none => exact unvisit_noOOF _ _ _ _ _
+                      | none => exact unvisit_noOOF _ _ _ _ _ _
                       | some v =>
                         simp only
                         cases hf : foldRes (fun k s => resolve w fuel (if n.kind = Kind.pathItem then cx' else cx) k s)
                             (if (if n.kind = Kind.pathItem then tn.ref.isSome else w.rewalk cx t n.kind) = true then
                               ((w.node v).map (·.kids)).getD [] else [])
                             { s3 with value := s3.value ++ [(o, v)] } with
-                        | ok s4 => simp only; exact unvisit_noOOF _ _ _ _ _
+                        | ok s4 => simp only; exact unvisit_noOOF _ _ _ _ _ _
                         | err _ => simp
                         | outOfFuel =>
                           exfalso
@@ -400,8 +400,9 @@ theorem loadDoc_ext (w : World) (rs rs' : Loc → Nat → St → Res) (h : ∀ l
     · rw [if_neg hc] at hr ⊢
       exact foldRes_ext (rs l) (rs' l) (h l) _ _ r hr hne
 
-theorem finish_ext (w : World) (rs rs' : Nat → St → Res) (h : ∀ k, Ext (rs k) (rs' k)) (k : Kind) (t : Text) (o : Obj)
-    (rw : Bool) (v : Option Obj) : Ext (finish w rs k t o rw v) (finish w rs' k t o rw v) := by
+theorem finish_ext (w : World) (rs rs' : Nat → St → Res) (h : ∀ k, Ext (rs k) (rs' k)) (k : Kind) (t : Text)
+    (tg : Option (Loc × Obj)) (o : Obj) (rw : Bool) (v : Option Obj) :
+    Ext (finish w rs k t tg o rw v) (finish w rs' k t tg o rw v) := by
   intro s r hr hne
   unfold finish at hr ⊢
   cases v with
@@ -417,7 +418,7 @@ theorem finish_ext (w : World) (rs rs' : Nat → St → Res) (h : ∀ k, Ext (rs
 /-- one level of `resolve`, the recursive calls abstracted -/
 def step (w : World) (rec : Loc → Obj → St → Res) (cx : Loc) (o : Obj) (s : St) : Res :=
   match w.node o with
-  | none => .err s.foreign
+  | none => .err s.flags
   | some n =>
     match n.ref with
     | none => markDone o (foldRes (fun k s => rec cx k s) n.kids s)
@@ -430,16 +431,16 @@ def step (w : World) (rec : Loc → Obj → St → Res) (cx : Loc) (o : Obj) (s 
         | .ok s2 =>
           if w.emptyTarget cx t n.kind then markDone o (.ok { s2 with nempty := s2.nempty + 1 }) else
           match w.target cx t n.kind with
-          | none => .err s2.foreign
+          | none => .err s2.flags
           | some (cx', tgt) =>
             match w.node tgt with
-            | none => .err s2.foreign
+            | none => .err s2.flags
             | some tn =>
-              if tn.kind ≠ n.kind then .err s2.foreign
+              if tn.kind ≠ n.kind then .err s2.flags
               else
                 match rec cx' tgt s2 with
                 | .ok s3 =>
-                  markDone o (finish w (fun k s => rec (if n.kind = Kind.pathItem then cx' else cx) k s) n.kind t o
+                  markDone o (finish w (fun k s => rec (if n.kind = Kind.pathItem then cx' else cx) k s) n.kind t (some (cx', tgt)) o
                     (if n.kind = Kind.pathItem then tn.ref.isSome else w.rewalk cx t n.kind) (valueOf w tgt s3) s3)
                 | e => e
         | e => e
@@ -499,7 +500,7 @@ theorem step_ext (w : World) (rec rec' : Loc → Obj → St → Res) (h : ∀ cx
                     | ok s3 =>
                       rw [h cx' tgt s2 _ hres (by simp)]
                       simp only [hres] at hr ⊢
-                      exact markDone_ext o _ _ (finish_ext w _ _ (fun k => h _ k) _ _ _ _ _) s3 r hr hne
+                      exact markDone_ext o _ _ (finish_ext w _ _ (fun k => h _ k) _ _ _ _ _ _) s3 r hr hne
 
 theorem resolve_fuel_succ (w : World) : ∀ fuel cx o, Ext (resolve w fuel cx o) (resolve w (fuel + 1) cx o) := by
   intro fuel
